@@ -24,6 +24,9 @@ sys.path.insert(0, os.path.dirname(os.path.abspath(__file__)))
 from props import PROPS  # per-property configuration
 
 
+RACE_FILES = set()  # event files written by workers of the -race build
+
+
 def log(*a):
     print(*a, file=sys.stderr, flush=True)
 
@@ -97,6 +100,8 @@ def run_shard(binary, prop, seed, tier, shard, nshards, rundir, cfg, extra_env=N
             except subprocess.TimeoutExpired:
                 rc = -999
         files.append(out)
+        if tag == "race":
+            RACE_FILES.add(out)
         evs = read_events(out)
         if rc == 0 and evs and evs[-1].get("ev") == "done":
             return files, lost
@@ -193,6 +198,9 @@ def main():
         out = os.path.join(rundir, "replay.jsonl")
         b = race_binary if replay.get("race") and race_binary else binary
         env = dict(GOENV, GOTRACEBACK="all")
+        if replay.get("race") and race_binary:
+            env.update({"GORACE": f"halt_on_error=0 exitcode=0 log_path={rundir}/race", "VERIF_RACE": "1",
+                        "GOMAXPROCS": str(cfg.get("race_gomaxprocs", 4))})
         env.update(replay.get("env", {}))
         with open(os.path.join(rundir, "replay.stderr"), "w") as ef:
             p = subprocess.run([b, prop, "--seed", str(a.seed), "--tier", a.tier, "--only", replay["case"], "--out", out],
@@ -210,7 +218,7 @@ def main():
                 jobs.append(ex.submit(run_shard, binary, prop, a.seed, a.tier, s, nshards, rundir, cfg))
             if race_binary:
                 rs = cfg.get("race_shards", 8)
-                renv = {"GORACE": f"halt_on_error=0 log_path={rundir}/race", "VERIF_RACE": "1",
+                renv = {"GORACE": f"halt_on_error=0 exitcode=0 log_path={rundir}/race", "VERIF_RACE": "1",
                         "GOMAXPROCS": str(cfg.get("race_gomaxprocs", 4))}
                 for s in range(rs):
                     jobs.append(ex.submit(run_shard, race_binary, prop, a.seed, a.tier, s, rs, rundir, cfg, renv, "race"))
@@ -234,6 +242,8 @@ def main():
                     k = e["skip"].split(":")[0]
                     skipped[k] = skipped.get(k, 0) + 1
             elif ev == "viol":
+                if f in RACE_FILES:
+                    e["race"] = True
                 viols.append(e)
             elif ev == "cov":
                 for k, v in e["k"].items():
@@ -275,7 +285,10 @@ def main():
                 if "WARNING: DATA RACE" in block:
                     race_reports.append(block)
         mod = importlib.import_module("oracles.c17_race")
-        viols += mod.classify(race_reports, cov)
+        try:
+            viols += mod.classify(race_reports, cov, rundir)
+        except TypeError:
+            viols += mod.classify(race_reports, cov)
 
     # lost cases (hang / crash)
     inconclusive = []
@@ -302,7 +315,7 @@ def main():
         elif l["kind"] == "crash":
             # fatal runtime error (stack overflow, concurrent map write, OOM): the process died inside a case
             reason = "fatal"
-            mm = re.search(r"(fatal error: [^\n]*|runtime: [^\n]*|signal: [^\n]*)", l["stderr_tail"])
+            mm = re.search(r"(fatal error: [^\n]*|panic: [^\n]*|runtime: [^\n]*|signal: [^\n]*)", l["stderr_tail"])
             if mm:
                 reason = mm.group(1)[:80]
             viols.append({"case": l["case"], "sig": f"{prop}|{mon}|process-died|{reason}", "detail": l["stderr_tail"][-1500:], "witness": None})
